@@ -245,6 +245,26 @@ func size(s state) int {
 
 func last(ts []time.Time) time.Time { return ts[len(ts)-1] }
 
+// grewBy: got is what the earlier timestamps prev plus k new ones may look like. The property
+// says nothing about how many update times of a repeated line are kept, so an implementation
+// may drop a line's OLDEST timestamps (a cap on the per-line history) at any call: got must be
+// a non-empty suffix of prev ++ (k new timestamps) that contains at least the newest one, in
+// the same order. Returns the number of new timestamps present at the end of got (0 = wrong).
+func grewBy(prev, got []time.Time, k int) int {
+	if len(got) == 0 || len(got) > len(prev)+k {
+		return 0
+	}
+	nNew := k
+	if len(got) < k {
+		nNew = len(got)
+	}
+	old := got[:len(got)-nNew]
+	if len(old) > 0 && !sameStamps(prev[len(prev)-len(old):], old) {
+		return 0
+	}
+	return nNew
+}
+
 func sameStamps(a, b []time.Time) bool {
 	if len(a) != len(b) {
 		return false
@@ -384,9 +404,12 @@ func (h *hist) doPrintf(format string, args []interface{}, note string) {
 		return
 	}
 	prev := s0[key]
-	if len(got) != len(prev)+1 || !sameStamps(prev, got[:len(prev)]) {
+	if grewBy(prev, got, 1) != 1 {
 		h.fail("newest-line-wrong-timestamps", "line %s had %d timestamps, after logging it once more it has %d (or older ones changed)", q(key), len(prev), len(got))
 		return
+	}
+	if len(got) != len(prev)+1 {
+		h.r.Count("obs.timestamp_history_shortened", 1)
 	}
 	tn := last(got)
 	if tn.Before(tb) || tn.After(te) {
@@ -863,13 +886,19 @@ func (h *hist) doRepeatBulk(line string, k int) {
 		}
 	}
 	prev, got := s0[line], s1[line]
-	if len(got) != len(prev)+k || !sameStamps(prev, got[:len(prev)]) {
+	nNew := grewBy(prev, got, k)
+	if nNew == 0 {
 		h.fail("newest-line-wrong-timestamps", "line %s had %d timestamps, after logging it %d more times it has %d (or older ones changed)", q(line), len(prev), k, len(got))
 		return
 	}
-	for i := 0; i < k; i++ {
-		if t := got[len(prev)+i]; t.Before(marks[i]) || t.After(marks[i+1]) {
-			h.fail("update-time-outside-call", "timestamp %d of %s is %v, the call ran from %v to %v", len(prev)+i, q(line), t.Sub(h.t0), marks[i].Sub(h.t0), marks[i+1].Sub(h.t0))
+	if len(got) != len(prev)+k {
+		h.r.Count("obs.timestamp_history_shortened", 1)
+	}
+	// the last nNew timestamps are those of the last nNew calls
+	for j := 0; j < nNew; j++ {
+		i := k - nNew + j
+		if t := got[len(got)-nNew+j]; t.Before(marks[i]) || t.After(marks[i+1]) {
+			h.fail("update-time-outside-call", "timestamp %d of %s is %v, the call ran from %v to %v", len(got)-nNew+j, q(line), t.Sub(h.t0), marks[i].Sub(h.t0), marks[i+1].Sub(h.t0))
 			return
 		}
 	}
@@ -1354,10 +1383,12 @@ func naturalScenario(b run.Batch, r *ev.Result, idx int) {
 			}
 			return
 		}
-		if len(ts) != len(ops) {
+		if len(ts) == 0 || len(ts) > len(ops) {
 			fail("newest-line-wrong-timestamps", "line %s was logged %d time(s) after the sleep and has %d timestamps", q(k), len(ops), len(ts))
 			return
 		}
+		// (an implementation may keep only the newest timestamps of a line: the ones present belong to the last calls)
+		ops = ops[len(ops)-len(ts):]
 		for i, o := range ops {
 			if ts[i].Before(o.tb) || ts[i].After(o.te) {
 				fail("update-time-outside-call", "timestamp %d of %s is %v, the call ran from %v to %v", i, q(k), ts[i].Sub(t0), o.tb.Sub(t0), o.te.Sub(t0))
